@@ -473,7 +473,10 @@ def replay(cfg, cex):
         nibabel.save(img, fn)
         img = nibabel.load(fn)
         options = {"sharding": sharding, "gzip": cfg["gzip"]} if sharding else {}
-        info_s, jt, in_dt, imperfect = vr.nibabel_image_to_info(img, options=options)
+        try:
+            info_s, jt, in_dt, imperfect = vr.nibabel_image_to_info(img, options=options)
+        except Exception as e:
+            return True, f"nibabel_image_to_info raised {type(e).__name__}: {e} (shape {shape}, {dt}, options {options})"
         info = json.loads(info_s)
         sc = info["scales"][0]
         ng = ("uint8", "uint16", "uint32", "uint64", "float32")
